@@ -10,6 +10,7 @@
 //   /pt      rToggle                          default false
 //   /po      rOption  {zero, one, two}        default one
 //   /ps      rString  length 8                default "abc"
+//   /preset_b rParamI 0..2                    default 0      (NO relation to /preset or /dep: a sibling whose name merely extends "preset", declared before it)
 //   /preset  rParamI  0..2                    default 0      (changing it re-initialises /dep)
 //   /dep     rParamI  0..100   default depends on /preset: 10, 20, 30
 //   /mode    rParamI  0..2     default 0, depends on /preset (a preset message resets it); changing it re-initialises /dep2 and /chain
@@ -26,6 +27,8 @@
 //   /sub_on  rToggle                          default true
 //   /sub/    rRecur   enabled by sub_on:   si rParamI 0..50 default 7,  sf rParamF -4..4 default 1.5, st rToggle default false, sa#2 rArrayI 0..100 default [4 4]
 //   /subs#2/ rRecurs  (same Sub ports)
+//   /osc/    rRecur   depends on osc_type (a dependency declared on the SUB-TREE port, inherited by everything below): gain rParamI 0..100 default 5
+//   /osc_type rParamI 0..2 default 0; every message to it re-initialises /osc/gain (declared AFTER the sub-tree, so the saved order is the wrong one)
 //   /palloc  rToggle  default false  (true allocates the object behind /psub/, false frees it)
 //   /psub/   rRecurp  (same Sub ports), enabled by palloc
 #pragma once
@@ -36,11 +39,12 @@
 namespace app1 {
 struct Sub { int si = 7; float sf = 1.5f; bool st = false; char sa[2] = {4, 4}; static const rtosc::Ports ports; };
 struct Voice { int vol = 64; static const rtosc::Ports ports; };
+struct Osc { int gain = 5; static const rtosc::Ports ports; };
 struct Fx { int gain = 3; int level = 11; int type = 0; Voice voice[2]; void type_changed() { static const int l[3] = {11, 22, 33}; level = l[type < 0 ? 0 : type > 2 ? 2 : type]; } static const rtosc::Ports ports; };
 struct App {
     char pc = 64; int pi = 5; int pn = 0; float pf = 0.5f; float pg = 1.0f; bool pt = false; int po = 1; char ps[8];
     int preset = 0; int dep = 10; int mode = 0; int dep2 = 1; int chain = 0; bool tg = false; int dep3 = 5; char al[8]; bool fx_on = false; Fx *fx = nullptr; char ai[3]; float af[3]; bool at[2];
-    bool sub_on = true; Sub sub; Sub subs[2]; bool palloc = false; Sub *psub = nullptr;
+    bool sub_on = true; Sub sub; Sub subs[2]; bool palloc = false; Sub *psub = nullptr; int preset_b = 0; Osc osc; int osc_type = 0;
     App() { strcpy(ps, "abc"); for (int i = 0; i < 3; ++i) { ai[i] = 3; af[i] = 0.25f; } at[0] = at[1] = false; memset(al, 0, sizeof al); }
     ~App() { delete psub; delete fx; }
     App(const App &) = delete;
@@ -61,6 +65,9 @@ inline const rtosc::Ports Sub::ports = {
 };
 #undef rObject
 
+#define rObject Osc
+inline const rtosc::Ports Osc::ports = { rParamI(gain, rLinear(0, 100), rDefault(5), "osc gain (re-initialised by the type of the oscillator, declared on the parent)") };
+#undef rObject
 #define rObject Voice
 inline const rtosc::Ports Voice::ports = { rParamI(vol, rLinear(0, 127), rDefault(64), "voice volume") };
 #undef rObject
@@ -85,6 +92,7 @@ inline const rtosc::Ports App::ports = {
     rToggle(pt, rDefault(false), "toggle"),
     rOption(po, rOptions(zero, one, two), rDefault(one), "option"),
     rString(ps, 8, rDefault("abc"), "string"),
+    rParamI(preset_b, rLinear(0, 2), rDefault(0), "unrelated parameter whose name extends 'preset'"),
 #undef rChangeCb
 #define rChangeCb obj->preset_changed();
     rParamI(preset, rLinear(0, 2), rDefault(0), "preset"),
@@ -123,6 +131,12 @@ inline const rtosc::Ports App::ports = {
 #undef rChangeCb
 #define rChangeCb
     rRecurp(psub, rEnabledBy(palloc), "pointer sub-tree"),
+    rRecur(osc, rDepends(osc_type), "member sub-tree that DEPENDS on a port declared after it"),
+#undef rChangeCb
+#define rChangeCb obj->osc.gain = 5;
+    rParamI(osc_type, rLinear(0, 2), rDefault(0), "re-initialises the osc sub-tree"),
+#undef rChangeCb
+#define rChangeCb
 };
 #undef rObject
 } // namespace app1
